@@ -176,6 +176,11 @@ func (cf *Config) expected() (map[int][]string, error) {
 // One run of the real Update.
 
 func runUpdate(state *cat.Catalogue, cf *Config, f *cat.Fault) (cn *cat.Conn, err error) {
+	if cf.Cluster != "" {
+		// a cluster of two nodes behind one address: every start reaches the other node (its local tables hold
+		// only what was written through it)
+		state.Node = 1 - state.Node
+	}
 	cn = cat.NewConn(state, dbName, f)
 	defer func() {
 		if r := recover(); r != nil {
@@ -466,7 +471,7 @@ func (h *harness) finish(state *cat.Catalogue) *finishRes {
 			r.FinalDiff = cat.Diff(h.refCanon, canon)
 		}
 		for _, k := range h.cf.streams() {
-			v, _ := st.VerMax(cat.QName{DB: dbName, Name: "ver"}, strconv.Itoa(k))
+			v, _ := st.VerMaxAllNodes(cat.QName{DB: dbName, Name: "ver"}, strconv.Itoa(k))
 			if int(v) != len(h.exp[k]) {
 				r.VerShort = append(r.VerShort, fmt.Sprintf("stream %d: version %d recorded, %s has %d scripts", k, v, streamName[k], len(h.exp[k])))
 			}
